@@ -253,6 +253,52 @@ def asgOp {τ : Type} [Sh τ] (k : String) (a b : τ) : Option String :=
   | "selfswap" => some (sh (swapObj a a).1)
   | _ => none
 
+/-- `variant<A, thrower>` that may be valueless: `A<d>`, `T`, `V` -/
+abbrev V2 := VarV 2 (fun _ => Nat)
+
+instance : Rd V2 := ⟨fun
+  | 'A' :: r => (rd (α := Nat) r).map fun (x, r') => (some ⟨0, x⟩, r')
+  | 'T' :: r => some (some ⟨1, (0 : Nat)⟩, r)
+  | 'V' :: r => some (none, r)
+  | _ => none⟩
+def shV2 (v : V2) : String :=
+  match v with
+  | none => "V"
+  | some w => if w.idx.val = 0 then "A" ++ toString (show Nat from w.val) else "T"
+
+/-- the visitor of the `vv.obs` operations -/
+def visit2 : (i : Fin 2) → Nat → KD Nat := fun i x =>
+  if i.val = 0 then do lg "a" [x]; pure x else do lg "t" []; pure 7
+
+def handleVV (toks : List String) : Option String :=
+  match toks with
+  | ["vv.assign", d, s, armed] => do
+    let d ← tok V2 d; let s ← tok V2 s; let armed ← tok Bool armed
+    if armed ∧ !VarV.holdsType 1 s then none
+    let (x, threw) := VarV.assign d s armed
+    pure s!"{shV2 x} {sh threw} | -"
+  | ["vv.obs", v, k] => do
+    let v ← tok V2 v
+    match k with
+    | "invalid" => pure (run1 (pure (VarV.isInvalid v)))
+    | "index" => pure (run1 (pure (match VarV.typeIndex v with | none => "npos" | some i => toString i)))
+    | "holds" => pure (run1 (pure [VarV.holdsType 0 v, VarV.holdsType 1 v]))
+    | "to_opt" | "to_opt_ref" => pure (run1 (ρ := Option Nat) (VarV.toOptional 0 v))
+    | "apply" | "match" => pure (run1 (VarV.apply visit2 v))
+    | "tinfo" => pure (run1 (VarV.apply (fun i _ => (pure i.val : KD Nat)) v))
+    | "out" => pure (run1 (VarV.apply (fun i x => (pure (if i.val = 0 then toString x else "T") : KD String)) v))
+    | _ => none
+  | ["vv.cmp", l, r] => do
+    let l ← tok V2 l; let r ← tok V2 r
+    let e := VarV.eq (fun _ => natEq) l r
+    -- all throwers are equal and none is smaller than another
+    let lt := VarV.lt (fun i a b => if i.val = 0 then natLt a b else false) l r
+    pure (run1 (pure [e, !e, lt]))
+  | ["vv.compare", l, r, res] => do
+    let l ← tok V2 l; let r ← tok V2 r; let res ← tok Bool res
+    pure (run1 (VarV.compare l r (fun i _ _ => do lg "c" [i.val]; pure res)))
+  | _ => none
+
 /-! ### operations -/
 def handle1 (toks : List String) : Option String :=
   match toks with
@@ -667,7 +713,7 @@ def handle1 (toks : List String) : Option String :=
   | ["m.ret.e", v] => do
     let v ← tok Nat v
     pure (run1 (pure (returnEither v : Either Nat Nat)))
-  | _ => none
+  | _ => handleVV toks
 
 /-- the `i`-th table D×D → D in counting order (most significant digit first) -/
 def table9 (i : Nat) : String :=
